@@ -109,6 +109,11 @@ def p3_scopes():
     p.add(TagDef("Local:1:C", modc, (), next(ids), kind="module"))
     p.add(TagDef("Local:1:I", modi, (), next(ids), kind="module"))
     p.add(TagDef("Rack:I", modi, (), next(ids), kind="module"))
+    # numbered and safety connections of a module
+    p.add(TagDef("Enc:I1", modi, (), next(ids), kind="module"))
+    p.add(TagDef("Flex:2:O2", modc, (), next(ids), kind="module"))
+    p.add(TagDef("Guard:3:SI", modi, (), next(ids), kind="module"))
+    p.add(TagDef("Guard:3:SO", modc, (), next(ids), kind="module"))
     p.add(TagDef("Program:Second_Prog", None, (), next(ids), kind="program", symbol_type=0x1068))
     p.tag("ctl_ary", "INT", (10,), instance_id=next(ids))
     p.add(TagDef("Task:Periodic", None, (), next(ids), kind="task", symbol_type=0x1070))
@@ -151,6 +156,17 @@ def p4_scale(n=260):
     t3 = p.add_type(layout("Id00UDT", 0x100, 0xD000, [("z", "SINT", 0), ("y", "DINT", 0)]))
     t4 = p.add_type(layout("IdC1UDT", 0xFC1, 0xD0C1, [("q", "INT", 3)]))
     par = p.add_type(layout("IdsUDT", 0x322, 0xD002, [("m1", t1, 0), ("m2", t2, 2), ("m3", t3, 0), ("m4", t4, 0), ("n", "DINT", 0)]))
+    # two different types reporting the same structure handle (the 16-bit handle is a checksum, not an identity), also nested and as strings
+    tw1 = p.add_type(layout("TwinMotor", 0x323, 0xD100, [("speed", "DINT", 0), ("run", "BOOL", 0), ("amps", "REAL", 0)]))
+    tw2 = p.add_type(layout("TwinPump", 0x324, 0xD100, [("flow", "REAL", 0), ("level", "INT", 3), ("ok", "BOOL", 0), ("fault", "BOOL", 0)]))
+    ts1 = p.add_type(string_type("TWINSTR20", 0x2B1, 20, handle=0x9B00))
+    ts2 = p.add_type(string_type("TWINSTR12", 0x2B2, 12, handle=0x9B00))
+    twp = p.add_type(layout("TwinHolder", 0x325, 0xD101, [("p", tw2, 0), ("m", tw1, 0), ("s12", ts2, 0), ("s20", ts1, 0)]))
+    p.tag("twin_motor", tw1, instance_id=0x5001)
+    p.tag("twin_pump", tw2, instance_id=0x5002)
+    p.tag("twin_s20", ts1, instance_id=0x5003)
+    p.tag("twin_s12", ts2, instance_id=0x5004)
+    p.tag("twin_holder", twp, instance_id=0x5005)
     p.tag("ids_parent", par, instance_id=0xFF)
     p.tag("ids_c4", t1, instance_id=0x101)  # 0x100 is taken by tag_052
     p.tag("ids_ca_ary", t2, (2,), instance_id=0xFFFF)
